@@ -80,11 +80,31 @@ fn shrink(size: usize) -> Option<String> {
     if r.is_ok() && w.out.len() != head.len() + size { return Some(format!("{desc} expected=Err-when-the-body-comes-up-short actual=Ok after {} of {} bytes", w.out.len(), head.len() + size)); }
     None
 }
+/// a body file that holds more than its declared length (it grew after the handler measured it): what goes out is never
+/// more than the one serialisation -- the head and exactly `declared` body bytes
+fn grown(declared: usize, actual: usize) -> Option<String> {
+    let desc = format!("grownfile declared={declared} actual={actual}");
+    let path = std::env::temp_dir().join(format!("verif-c08-grown-{}-{declared}-{actual}", std::process::id()));
+    if std::fs::write(&path, vec![b'y'; actual]).is_err() { return None; }
+    let resp = Response::new(200).with_body(ResponseBody::File(path.clone(), declared as u64));
+    let mut correct = format!("HTTP/1.1 200 OK\r\ncontent-length: {declared}\r\n\r\n").into_bytes();
+    correct.extend(vec![b'y'; declared]);
+    let mut w = RecWriter::new();
+    let r = std::panic::catch_unwind(std::panic::AssertUnwindSafe(|| block_on(write_http_response(&mut w, &resp, false))));
+    let _ = std::fs::remove_file(&path);
+    if r.is_err() { return Some(format!("{desc} expected=terminates-without-panic actual=panic")); }
+    if !correct.starts_with(&w.out) { return Some(format!("{desc} expected=prefix-of-the-one-serialisation ({} bytes) actual={} bytes, not a prefix", correct.len(), w.out.len())); }
+    None
+}
 fn main() {
     std::panic::set_hook(Box::new(|_| {}));
     let args: Vec<String> = std::env::args().collect();
     if args.len() >= 3 && args[1] == "replay" {
         let w = args[2..].join(" ");
+        if w.starts_with("grownfile") {
+            let n: Vec<usize> = w.split(|c: char| !c.is_ascii_digit()).filter(|s| !s.is_empty()).filter_map(|s| s.parse().ok()).collect();
+            match grown(n[0], n[1]) { Some(m) => { println!("WITNESS {m}"); std::process::exit(1) } None => { println!("OK witness no longer fails"); std::process::exit(0) } }
+        }
         if w.starts_with("shrinkfile") {
             let size: usize = w.split("size=").nth(1).unwrap().split(' ').next().unwrap().parse().unwrap();
             match shrink(size) { Some(m) => { println!("WITNESS {m}"); std::process::exit(1) } None => { println!("OK witness no longer fails"); std::process::exit(0) } }
@@ -107,6 +127,7 @@ fn main() {
     }
     // (async_fs reads ahead several MiB, so the file must be larger than that for the cut to land mid-body)
     for size in [24usize << 20, 40 << 20] { n += 1; if let Some(m) = shrink(size) { if found.len() < 6 { found.push(m) } } }
+    for (d, a) in [(4usize, 10usize), (0, 5), (1, 2), (2000, 2001), (65536, 70000), (100, 200000)] { n += 1; if let Some(m) = grown(d, a) { if found.len() < 6 { found.push(m) } } }
     println!("EVALUATED {n}");
     for f in &found { println!("WITNESS {f}"); }
     std::process::exit(if found.is_empty() { 0 } else { 1 });
